@@ -432,6 +432,10 @@ def main_c11(tier):
             d = ds.random_decl(rng, 'h%03d' % i, nmin=3, nmax=7, zero_in_async=rng.choice([0, 2, 3]))
             if ds.accepts(d):
                 decls.append(d)
+        # one call closing several done-channels, wide fan-out: lists the generator builds from sets or maps
+        for k_, n_ in enumerate((3, 4, 6) if quick else (2, 3, 4, 5, 6, 7, 8)):
+            decls.append(ds.multi_fan_decl(rng, 'mf%02d' % k_, k=n_))
+        decls.append(ds.wide_decl(rng, 'wd00', width=10, sync_root=True))
         pl.build_tools()
         with pl.Work('C11') as w:
             cli = pl.build_cli(w)
